@@ -29,6 +29,7 @@ type c11Opts struct {
 	forwardConts  bool // containers declared after objects that are relocated into them
 	fields        bool
 	indexFields   bool
+	bankFields    bool
 	connections   bool
 	bodies        bool
 	calls         bool
@@ -47,7 +48,7 @@ func c11DefaultOpts(r *vlib.Rand) *c11Opts {
 		tables: r.PickInt([]int{1, 1, 2, 3}), maxDepth: r.Range(1, 4), itemsPerBlock: r.Range(1, 6),
 		absNames: r.Chance(3, 4), devPathNames: r.Chance(2, 3), siblingNames: r.Chance(2, 3), caretNames: r.Chance(2, 3),
 		scopeDirs: r.Chance(4, 5), scopeInDevice: r.Chance(1, 2), forwardConts: r.Chance(2, 3),
-		fields: r.Chance(3, 4), indexFields: r.Chance(1, 2), connections: r.Chance(1, 2),
+		fields: r.Chance(3, 4), indexFields: r.Chance(1, 2), bankFields: r.Chance(1, 2), connections: r.Chance(1, 2),
 		bodies: r.Chance(5, 6), calls: r.Chance(5, 6), nestedCalls: r.Chance(3, 4),
 		deferred: r.Chance(3, 4), deferredNames: r.Chance(3, 4), packages: r.Chance(3, 4), localDecls: r.Chance(2, 3),
 		bigPkg: r.Chance(1, 3), maxStmts: r.Range(1, 6), maxExprDepth: r.Range(1, 4),
@@ -60,7 +61,7 @@ func c11DefaultOpts(r *vlib.Rand) *c11Opts {
 // feature off except the listed ones; VERIF_C11_OFF="flag,flag" switches the listed ones off.
 func c11ApplyOverride(o *c11Opts) {
 	flags := map[string]*bool{"absNames": &o.absNames, "devPathNames": &o.devPathNames, "siblingNames": &o.siblingNames, "caretNames": &o.caretNames,
-		"scopeDirs": &o.scopeDirs, "scopeInDevice": &o.scopeInDevice, "fields": &o.fields, "indexFields": &o.indexFields, "connections": &o.connections,
+		"scopeDirs": &o.scopeDirs, "scopeInDevice": &o.scopeInDevice, "fields": &o.fields, "indexFields": &o.indexFields, "bankFields": &o.bankFields, "connections": &o.connections,
 		"bodies": &o.bodies, "calls": &o.calls, "nestedCalls": &o.nestedCalls, "deferred": &o.deferred, "deferredNames": &o.deferredNames,
 		"packages": &o.packages, "localDecls": &o.localDecls, "bigPkg": &o.bigPkg}
 	ints := map[string]*int{"tables": &o.tables, "maxDepth": &o.maxDepth, "itemsPerBlock": &o.itemsPerBlock, "maxStmts": &o.maxStmts, "maxExprDepth": &o.maxExprDepth}
@@ -120,7 +121,7 @@ func c11NewGen(r *vlib.Rand, o *c11Opts) *c11Gen {
 	return g
 }
 
-var c11Lead = map[int]byte{c11KDevice: 'D', c11KProcessor: 'P', c11KPowerRes: 'W', c11KThermalZone: 'T', c11KMethod: 'M', c11KName: 'N', c11KOpRegion: 'R', c11KMutex: 'X', c11KEvent: 'E', c11KFieldUnit: 'F'}
+var c11Lead = map[int]byte{c11KDevice: 'D', c11KProcessor: 'P', c11KPowerRes: 'W', c11KThermalZone: 'T', c11KMethod: 'M', c11KName: 'N', c11KOpRegion: 'R', c11KMutex: 'X', c11KEvent: 'E', c11KFieldUnit: 'F', c11KDataRegion: 'G'}
 
 // newSeg picks a name from a tiny alphabet that is still free in scope.
 func (g *c11Gen) newSeg(scope *c11Obj, lead byte) string {
@@ -356,6 +357,24 @@ func (g *c11Gen) genFieldItem(lex *c11Obj) *c11Item {
 			g.feat["indexfield"]++
 		}
 	}
+	if it.kind == 2 && g.o.bankFields && r.Chance(1, 4) {
+		var units []*c11Obj
+		for _, k := range lex.kids {
+			if k.kind == c11KFieldUnit && !k.isBankUnit {
+				units = append(units, k)
+			}
+		}
+		if len(units) >= 1 {
+			it.kind = 4
+			it.index = units[r.Intn(len(units))]
+			it.written2 = c11NameString("", it.index.seg)
+			it.bankVal = c11Int(uint64(r.Intn(70000)), r)
+			if it.bankVal.op == pOpOnes {
+				it.bankVal = c11Int(7, nil)
+			}
+			g.feat["bankfield"]++
+		}
+	}
 	atype, attrib, alen := it.fflags&0xf, uint8(0), uint8(0)
 	lock, update := (it.fflags>>4)&1, (it.fflags>>5)&3
 	var conn *c11Obj
@@ -371,7 +390,7 @@ func (g *c11Gen) genFieldItem(lex *c11Obj) *c11Item {
 				continue
 			}
 			w := uint32(r.PickInt([]int{1, 3, 8, 16, 32, 63, 64, 65, 300, 4095, 4096, 70000}))
-			u := &c11Obj{kind: c11KFieldUnit, seg: seg, parent: lex, table: g.table, form: "fieldunit"}
+			u := &c11Obj{kind: c11KFieldUnit, seg: seg, parent: lex, table: g.table, form: "fieldunit", isBankUnit: it.kind == 4}
 			u.funit = &c11FieldInfo{bitOffset: bit, width: w, atype: atype, attrib: attrib, alen: alen, lock: lock, update: update, hasConn: hasConn, connObj: conn, connBuf: connB, fieldDecl: it}
 			lex.kids = append(lex.kids, u)
 			g.all = append(g.all, u)
@@ -392,7 +411,7 @@ func (g *c11Gen) genFieldItem(lex *c11Obj) *c11Item {
 			it.fields = append(it.fields, c11Field{kind: 3, atype: atype, attrib: attrib, alen: alen})
 			g.feat["field_extaccess"]++
 		default:
-			if !g.o.connections || it.kind == 3 {
+			if !g.o.connections || it.kind == 3 || it.kind == 4 {
 				continue
 			}
 			if r.Bool() {
@@ -446,8 +465,10 @@ func (g *c11Gen) genItems(lex *c11Obj, lexKind int, depth int) []*c11Item {
 			it = g.declare(c11KOpRegion, lex, lexKind, depth)
 		case x < 70:
 			it = g.declare(c11KMutex, lex, lexKind, depth)
-		case x < 73:
+		case x < 72:
 			it = g.declare(c11KEvent, lex, lexKind, depth)
+		case x < 74:
+			it = g.declare(c11KDataRegion, lex, lexKind, depth)
 		case x < 83:
 			if g.o.fields {
 				it = g.genFieldItem(lex)
@@ -519,7 +540,7 @@ func (x *c11Ctx) visible(kinds ...int) []*c11Obj {
 		if o.methodLocal && o.parent != x.scope {
 			continue
 		}
-		if o.isIndexUnit {
+		if o.isIndexUnit || o.isBankUnit {
 			continue
 		}
 		if x.refName(o) != nil {
@@ -848,6 +869,14 @@ func (g *c11Gen) fillTable(t int) {
 				o.data = &c11Expr{kind: c11EString, str: s}
 			default:
 				o.data = c11Int(g.r.PickU64([]uint64{0, 1, 0xff, 0x100, 0xffff, 0x10000, 0xffffffff, 0x100000000, ^uint64(0), g.r.U64()}), g.r)
+			}
+		case c11KDataRegion:
+			for k := 0; k < 3; k++ {
+				s := make([]byte, g.r.Intn(9))
+				for i := range s {
+					s[i] = byte(g.r.Range(0x20, 0x7e))
+				}
+				o.dstr = append(o.dstr, &c11Expr{kind: c11EString, str: s})
 			}
 		case c11KOpRegion:
 			o.roff = c11Int(uint64(g.r.U32()), g.r)
